@@ -187,6 +187,19 @@ int main(int argc, char** argv) {
       continue;
     }
     if (hc_is(0, "look")) { do_look(hc_w[1], (int)hc_int(2), (int)hc_int(3), (int)hc_int(4), 0); continue; }
+    if (hc_is(0, "nulltype")) {                 /* no type at all where a type is expected: refused, not dereferenced */
+      const char* names[] = { "type_instance", "type_implements", "size", "alloc", "type_method" };
+      for (int k = 0; k < 5; k++) {
+        hc_exc = "";
+        if (k == 0) HC_TRY(type_instance(NULL, Size));
+        if (k == 1) HC_TRY(type_implements(NULL, Size));
+        if (k == 2) HC_TRY(size(NULL));
+        if (k == 3) HC_TRY(alloc(NULL));
+        if (k == 4) HC_TRY(type_method_at_offset(NULL, Size, 0, "size"));
+        ev_begin("nulltype"); ev_str("what", names[k]); ev_str("exc", hc_exc); ev_end();
+      }
+      continue;
+    }
     if (hc_is(0, "lookseq")) { int ms[64]; int nm = 0; for (int i = 4; i < hc_nw && nm < 64; i++) ms[nm++] = (int)hc_int(i);
       do_lookseq(hc_w[1], (int)hc_int(2), (int)hc_int(3), nm, ms); continue; }
     if (hc_is(0, "cast")) {
